@@ -2206,7 +2206,8 @@ fn generate_constraints_stmt(
             {
                 if let Declaration::Var(node) = decl {
                     if let AstNode::Pat(pat) = node
-                        && !ctx.pat_is_mutable[&pat.id]
+                        // only `let`/`var` patterns are recorded; `for` and `match` bindings are immutable
+                        && !ctx.pat_is_mutable.get(&pat.id).copied().unwrap_or(false)
                     {
                         ctx.errors.push(Error::GenericWithNode {
                             msg:
